@@ -279,6 +279,11 @@ impl<'a, 'b> Gen<'a, 'b> {
         }
         let name = self.fresh();
         let tk = self.id(&name);
+        if self.t.chance(1, 8) {
+            // package imports in the header
+            self.tag("header-import");
+            self.import_declaration();
+        }
         if self.t.chance(1, 3) {
             self.parameter_port_list();
         }
@@ -325,6 +330,8 @@ impl<'a, 'b> Gen<'a, 'b> {
                 if nest > 0 && self.t.chance(1, 25) {
                     self.tag("nested-module");
                     self.module_declaration(nest - 1);
+                } else if self.t.chance(1, 40) {
+                    self.specparam_declaration();
                 } else if self.t.chance(1, 12) {
                     self.tag("generate-region");
                     self.kw("generate");
